@@ -22,8 +22,6 @@
      opts_known f            no header carries an option the specification does not define for that kind of section.
                              (On the main header and on content sections such an option loads and then to_bytes()
                              raises TypeError; on .change / ..file it is a constructor keyword.)
-     no_meta_line_endings f  finding D15: no metadata section declares line_endings= (write_meta has no such
-                             parameter: TypeError).
      choice_values_ok f      mimetype= / type=, when present, are values of the specification's lists (the reader
                              does not look at them, the writer rejects anything else: DiffXOptionValueChoiceError).
      sub_metas_nonempty f    every ..meta and ...meta section holds a NON-EMPTY JSON object.  The DOM writer skips an
@@ -33,6 +31,12 @@
                              empty main .meta is harmless (it is dropped; [same_contents] does not see it).
      metas_plain f           the JSON value of each metadata section contains no value json.dumps rejects and its float
                              reprs are ASCII (true of everything json.loads returns; the oracle is a parameter).
+   No longer a premise: [no_meta_line_endings f] (no metadata section declares line_endings=).  It existed until
+   pydiffx fix D15: the DOM writer passed the option on to write_meta(), which has no such parameter (TypeError).
+   Since the fix the option is dropped when re-serialising (the streaming writer never writes it for metadata);
+   the re-serialised section has no line_endings, [same_contents] is about contents and does not see options, and
+   the fixed point goes through [normalise], which keeps only encoding / format on a metadata section.  The former
+   witness is now the positive example C06_foreign_meta_line_endings_ok.
    Not needed: a premise that decoded texts can be encoded again (it follows from [wf_file] by the codec laws), and
    [contents_final] (texts and diffs already end with the line ending the object model determines: proved from
    [wf_file], C06_contents_final; for undeclared line endings this is where the byte-level detection of the reader
@@ -77,13 +81,13 @@ Print Assumptions C06_foreign_read_step.
 
 (* ---- (B) re-serialising succeeds ---- *)
 Theorem C06_foreign_calls : forall f,
-  wf_file f = true -> dom_accepts f = true -> opts_known f = true -> no_meta_line_endings f = true ->
+  wf_file f = true -> dom_accepts f = true -> opts_known f = true ->
   tree_calls (tree_of_file f) = Ok (file_calls f).
 Proof. exact DomForeignFacts.foreign_tree_calls. Qed.
 Print Assumptions C06_foreign_calls.
 
 Theorem C06_foreign_writes : forall f,
-  wf_file f = true -> dom_accepts f = true -> opts_known f = true -> no_meta_line_endings f = true ->
+  wf_file f = true -> dom_accepts f = true -> opts_known f = true ->
   choice_values_ok f = true -> sub_metas_nonempty f = true -> metas_plain f = true ->
   exists b, dom_write (tree_of_file f) = Ok b.
 Proof. exact DomForeignFacts.foreign_writes. Qed.
@@ -95,7 +99,7 @@ Proof. exact DomForeignFacts.contents_final_wf. Qed.
 Print Assumptions C06_contents_final.
 
 Theorem C06_foreign_domain : forall f,
-  wf_file f = true -> dom_accepts f = true -> opts_known f = true -> no_meta_line_endings f = true ->
+  wf_file f = true -> dom_accepts f = true -> opts_known f = true ->
   choice_values_ok f = true -> sub_metas_nonempty f = true -> metas_plain f = true ->
   typed_tree (tree_of_file f) = true /\ tree_encs_ok (tree_of_file f) = true /\
   tree_indents_ok (tree_of_file f) = true /\ same_contents (tree_of_file f) (normalise (tree_of_file f)).
@@ -109,7 +113,7 @@ Theorem C06_same_contents_def : forall a b,
 Proof. intros; reflexivity. Qed.
 
 Theorem C06_foreign_tree_oracle : forall f orc,
-  wf_file f = true -> dom_accepts f = true -> opts_known f = true -> no_meta_line_endings f = true ->
+  wf_file f = true -> dom_accepts f = true -> opts_known f = true ->
   RoundTrip.oracle_ok orc (file_calls f) -> tree_oracle_ok orc (tree_of_file f).
 Proof. exact DomForeignFacts.foreign_tree_oracle. Qed.
 Print Assumptions C06_foreign_tree_oracle.
@@ -119,7 +123,7 @@ Theorem C06_foreign : forall f orc t,
   wf_file f = true -> oracle_ok_file orc f ->
   (Z.of_nat (length (render_file f)) <= sys_maxsize)%Z ->
   dom_read orc (render_file f) = Ok t ->
-  opts_known f = true -> no_meta_line_endings f = true -> choice_values_ok f = true ->
+  opts_known f = true -> choice_values_ok f = true ->
   sub_metas_nonempty f = true -> metas_plain f = true ->
   exists b, dom_write t = Ok b /\ same_contents t (normalise t) /\
     (tree_oracle_ok orc t -> tree_metas_oracle_ok orc t -> tree_guesses_ok t ->
@@ -137,7 +141,7 @@ Example C06_foreign_ex_hypotheses :
   wf_file fx_good = true /\ oracle_ok_file fx_orc fx_good /\
   (Z.of_nat (length (render_file fx_good)) <= sys_maxsize)%Z /\
   dom_read fx_orc (render_file fx_good) = Ok (tree_of_file fx_good) /\
-  opts_known fx_good = true /\ no_meta_line_endings fx_good = true /\ choice_values_ok fx_good = true /\
+  opts_known fx_good = true /\ choice_values_ok fx_good = true /\
   sub_metas_nonempty fx_good = true /\ metas_plain fx_good = true /\
   tree_oracle_ok fx_orc (tree_of_file fx_good) /\ tree_metas_oracle_ok fx_orc (tree_of_file fx_good) /\
   tree_guesses_ok (tree_of_file fx_good).
@@ -159,17 +163,36 @@ Proof. split; vm_compute; reflexivity. Qed.
 
 (* ---- each premise is needed: [reads_but_fails f e] = f is well-formed, the oracle answers, the object model reads
         it into [tree_of_file f], and serialising that tree raises e; the six booleans are
-        (opts_known, no_meta_line_endings, choice_values_ok, sub_metas_nonempty, metas_plain, contents_final) ---- *)
+        (opts_known, no_meta_line_endings, choice_values_ok, sub_metas_nonempty, metas_plain, contents_final);
+        the second one is no longer a premise (pydiffx fix D15) and is kept in the tuple as a record ---- *)
 Theorem C06_reads_but_fails_def : forall f e,
   reads_but_fails f e <->
   wf_file f = true /\ oracle_ok_file rx_orc f /\ dom_read rx_orc (render_file f) = Ok (tree_of_file f) /\
   dom_write (tree_of_file f) = Err e.
 Proof. intros; reflexivity. Qed.
 
-(* finding D15:  #.meta: format=json, length=8, line_endings=unix  {"a":1} *)
-Example C06_foreign_meta_line_endings_refuted :
-  reads_but_fails rx_meta_le EType /\ other_premises rx_meta_le = (true, false, true, true, true, true).
-Proof. exact DomForeignFacts.meta_line_endings_refuted. Qed.
+(* finding D15, repaired:  #.meta: format=json, length=8, line_endings=unix  {"a":1}
+   Until pydiffx fix D15 [no_meta_line_endings f = true] was a premise of C06_foreign (and of _calls, _writes,
+   _domain, _tree_oracle, _noguess) and this file was its witness C06_foreign_meta_line_endings_refuted: it loaded
+   and to_bytes() raised TypeError.  Now the same file (which still declares the option: second boolean false, and
+   the tree that is read holds it) loads and re-serialises to the bytes shown, without line_endings on the metadata
+   section; the contents are the same and the fixed point holds. *)
+Example C06_foreign_meta_line_endings_ok :
+  wf_file rx_meta_le = true /\ oracle_ok_file rx_meta_le_orc rx_meta_le /\
+  dom_read rx_meta_le_orc (render_file rx_meta_le) = Ok (tree_of_file rx_meta_le) /\
+  other_premises rx_meta_le = (true, false, true, true, true, true) /\
+  kw (m_opts (d_meta (tree_of_file rx_meta_le))) "line_endings" = S_ "unix" /\
+  dom_write (tree_of_file rx_meta_le) = Ok rx_meta_le_bytes /\
+  same_contents (tree_of_file rx_meta_le) (normalise (tree_of_file rx_meta_le)) /\
+  dom_read rx_meta_le_orc rx_meta_le_bytes = Ok (normalise (tree_of_file rx_meta_le)) /\
+  dom_write (normalise (tree_of_file rx_meta_le)) = Ok rx_meta_le_bytes.
+Proof. exact DomForeignFacts.meta_line_endings_ok. Qed.
+Example C06_foreign_meta_line_endings_ok_bytes :
+  rx_meta_le_bytes =
+  B "#diffx: encoding=utf-8, version=1.0" ++ [x0a] ++
+  B "#.meta: format=json, length=15" ++ [x0a] ++
+  B "{" ++ [x0a] ++ B "    " ++ [x22] ++ B "a" ++ [x22] ++ B ": 1" ++ [x0a] ++ B "}" ++ [x0a].
+Proof. vm_compute. reflexivity. Qed.
 
 (* #.change: / #..file: / #...meta: {} / #...diff: a   — write_diff() after new_file() *)
 Example C06_foreign_empty_file_meta_refuted :
@@ -216,7 +239,7 @@ Theorem C06_foreign_noguess : forall f orc t,
   wf_file f = true -> oracle_ok_file orc f ->
   (Z.of_nat (length (render_file f)) <= sys_maxsize)%Z ->
   dom_read orc (render_file f) = Ok t ->
-  opts_known f = true -> no_meta_line_endings f = true -> choice_values_ok f = true ->
+  opts_known f = true -> choice_values_ok f = true ->
   sub_metas_nonempty f = true -> metas_plain f = true ->
   exists b, dom_write t = Ok b /\ same_contents t (normalise t) /\
     (tree_oracle_ok orc t -> tree_metas_oracle_ok orc t ->
